@@ -125,6 +125,12 @@ func runC14(c *Ctx) {
 	long := strings.Repeat("word ", 2500) // one text run far beyond the 4096-byte buffer
 	docs := []string{"", "a", "# h\n\npara *em* `c`\n", "- a\n- b\n\n> q\n", long, "# t\n\n" + long + "\n\n- x\n", strings.Repeat("para\n\n", 900), strings.Repeat("*a* ", 1100),
 		"|a|b|\n|-|-|\n|c|d|\n", "```\n" + strings.Repeat("code line\n", 500) + "```\n", "[^1]\n\n[^1]: note\n", "<div>\n" + strings.Repeat("x", 5000) + "\n</div>\n"}
+	// more than one buffer of output, then every kind of node: a renderer function that looks at
+	// the writer's error itself does so only after an earlier flush has failed
+	for _, tail := range []string{"```go\ncode\n```\n", "    indented\n", "# heading\n", "> quote\n", "- item\n- item\n", "1. a\n2. b\n", "***\n", "<div>\nraw\n</div>\n", "*e* **s** `c` [l](/u \"t\") ![i](/s) <http://a.b> <b>r</b> a  \nb\n",
+		"|a|b|\n|:-|-:|\n|c|d|\n", "- [ ] t\n- [x] u\n", "~~d~~ www.a.b\n", "x[^1]\n\n[^1]: n\n", "term\n: def\n", "\"q\" -- ...\n", "h\n===\n", "t {#i .c}\n---\n"} {
+		docs = append(docs, strings.Repeat("filler paragraph text\n\n", 260)+tail, tail+strings.Repeat("filler paragraph text\n\n", 260)+tail)
+	}
 	corp := corpusDocs()
 	nCorp := 40
 	if !c.Quick() {
@@ -149,7 +155,7 @@ func runC14(c *Ctx) {
 					ks = append(ks, k)
 				}
 			} else {
-				ks = []int{0, 1, 2, n - 1, n, n + 1, 4095, 4096, 4097, 8191, 8192, 8193, n / 2}
+				ks = []int{0, 1, 2, 7, 100, 1000, n - 1, n, n + 1, 4095, 4096, 4097, 8191, 8192, 8193, n / 2}
 				for j := 0; j < 25; j++ {
 					ks = append(ks, c.R.Intn(n+2))
 				}
